@@ -64,6 +64,13 @@ fn main() {
             for i in 0..n {
                 let tree = axverif::tape::new_tree(&axverif::tape::Shape::flat(200), axverif::util::mix2(seed ^ 0xC0, i));
                 let tv = tree.current();
+                if let Some(id) = kind.strip_prefix("tape:") {
+                    // a random tape of the property's own shape
+                    let shape = axverif::props::shape_of(id).expect("emit-corpus tape:<ID>: unknown property");
+                    let tv = axverif::tape::new_tree(&shape, axverif::util::mix2(seed ^ 0xC1, i)).current();
+                    let _ = std::fs::write(format!("{}/gen-{:04}", dir, i), axverif::tape::tape_to_raw(&tv));
+                    continue;
+                }
                 let bytes: Vec<u8> = if kind == "elf" {
                     let mut t = axverif::tape::Tape::new(&tv[0]);
                     axverif::elfb::build(&axverif::elfb::gen_desc(&mut t)).0
